@@ -25,6 +25,40 @@ pub fn run(out: &mut Out, thorough: bool, seed: u64) {
                 }
             }
         }
+        // raw key-hash fragments (only reachable by decoding a script / from_ast): the
+        // satisfier's raw_pkh arm and the lookup_raw_pkh_* hooks
+        if ctx != CtxK::Bare {
+            use ast::Node::*;
+            let b = if ctx == CtxK::Tap { 200 } else { 0 };
+            let bx = |n: ast::Node| Box::new(n);
+            let rp = |h: u32| Check(bx(RawPkH(b + h)));
+            let pk = |i: u32| Check(bx(PkK(b + i)));
+            let corpus = vec![
+                rp(0),
+                OrD(bx(rp(0)), bx(pk(1))),
+                OrD(bx(pk(1)), bx(rp(0))),
+                AndV(bx(Verify(bx(rp(0)))), bx(pk(1))),
+                AndB(bx(rp(0)), bx(Alt(bx(rp(1))))),
+                OrB(bx(rp(0)), bx(Alt(bx(pk(1))))),
+                OrI(bx(rp(0)), bx(rp(1))),
+                AndOr(bx(rp(0)), bx(pk(1)), bx(pk(2))),
+                AndOr(bx(pk(1)), bx(rp(0)), bx(rp(2))),
+                Thresh(1, vec![rp(0), Alt(bx(pk(1))), Alt(bx(rp(2)))]),
+                Thresh(2, vec![rp(0), Alt(bx(pk(1))), Alt(bx(rp(2)))]),
+                NonZero(bx(rp(0))),
+                OrD(bx(NonZero(bx(rp(0)))), bx(pk(1))),
+            ];
+            for node in corpus {
+                n_frag += 1;
+                node.count_frags(out);
+                out.count("raw_pkh corpus");
+                for a in msops::asset_subsets(&node, 64) {
+                    for mall in [false, true] {
+                        with_ctx!(ctx, emit_sat(out, ctx, &node, &a, mall));
+                    }
+                }
+            }
+        }
         // random larger scripts
         let n_rand = if thorough { 400 } else { 60 };
         for _ in 0..n_rand {
